@@ -55,3 +55,7 @@ func Settle()
 // Atomic runs f as one step of the harness's own bookkeeping (no scheduling point inside; natively under one
 // process-wide lock).
 func Atomic(f func())
+
+// Bounded runs f; natively it fails the obligation "no-alloc" if f allocated more than maxBytes in total (the
+// engine reports a make() whose size the input controls beyond its allocation bound as outcome "alloc").
+func Bounded(maxBytes int, f func())
